@@ -780,7 +780,7 @@ impl RenderNode {
                 result
             }
             Header(level, ref v) => {
-                let prefix_size = decorator.header_prefix(level).len();
+                let prefix_size = UnicodeWidthStr::width(decorator.header_prefix(level).as_str());
                 let mut size = v
                     .iter()
                     .map(recurse)
@@ -2087,7 +2087,7 @@ fn do_render_node<T: Write, D: TextDecorator>(
         Header(level, children) => {
             let prefix = renderer.header_prefix(level);
             let prefix_size = size_estimate.prefix_size;
-            debug_assert!(prefix.len() == prefix_size);
+            debug_assert!(UnicodeWidthStr::width(prefix.as_str()) == prefix_size);
             let min_width = size_estimate.min_width;
             let inner_width = min_width.saturating_sub(prefix_size);
             let sub_builder =
@@ -2113,10 +2113,12 @@ fn do_render_node<T: Write, D: TextDecorator>(
         }
         BlockQuote(children) => {
             let prefix = renderer.quote_prefix();
-            debug_assert!(size_estimate.prefix_size == prefix.len());
-            let inner_width = size_estimate.min_width - prefix.len();
+            // Lay out by the display width of the prefix, not its length in bytes.
+            let prefix_width = UnicodeWidthStr::width(prefix.as_str());
+            debug_assert!(size_estimate.prefix_size == prefix_width);
+            let inner_width = size_estimate.min_width - prefix_width;
             let sub_builder =
-                renderer.new_sub_renderer(renderer.width_minus(prefix.len(), inner_width)?)?;
+                renderer.new_sub_renderer(renderer.width_minus(prefix_width, inner_width)?)?;
             renderer.push(sub_builder);
             pending2(children, move |renderer: &mut TextRenderer<D>, _| {
                 let sub_builder = renderer.pop();
@@ -2130,7 +2132,7 @@ fn do_render_node<T: Write, D: TextDecorator>(
         }
         Ul(items) => {
             let prefix = renderer.unordered_item_prefix();
-            let prefix_len = prefix.len();
+            let prefix_len = UnicodeWidthStr::width(prefix.as_str());
 
             TreeMapResult::PendingChildren {
                 children: items,
@@ -2148,7 +2150,7 @@ fn do_render_node<T: Write, D: TextDecorator>(
                 postfn: Some(Box::new(move |renderer: &mut TextRenderer<D>, _| {
                     let sub_builder = renderer.pop();
 
-                    let indent = " ".repeat(prefix.len());
+                    let indent = " ".repeat(prefix_len);
 
                     renderer.append_subrender(
                         sub_builder,
@@ -2165,10 +2167,12 @@ fn do_render_node<T: Write, D: TextDecorator>(
             let min_number = start;
             // Assumption: num_items can't overflow isize.
             let max_number = start.saturating_add(num_items as i64).saturating_sub(1);
-            let prefix_width_min = renderer.ordered_item_prefix(min_number).len();
-            let prefix_width_max = renderer.ordered_item_prefix(max_number).len();
+            let prefix_width_min =
+                UnicodeWidthStr::width(renderer.ordered_item_prefix(min_number).as_str());
+            let prefix_width_max =
+                UnicodeWidthStr::width(renderer.ordered_item_prefix(max_number).as_str());
             let prefix_width = max(prefix_width_min, prefix_width_max);
-            let prefixn = format!("{: <width$}", "", width = prefix_width);
+            let prefixn = " ".repeat(prefix_width);
             let i: Cell<_> = Cell::new(start);
 
             TreeMapResult::PendingChildren {
@@ -2186,8 +2190,10 @@ fn do_render_node<T: Write, D: TextDecorator>(
                 })),
                 postfn: Some(Box::new(move |renderer: &mut TextRenderer<D>, _| {
                     let sub_builder = renderer.pop();
-                    let prefix1 = renderer.ordered_item_prefix(i.get());
-                    let prefix1 = format!("{: <width$}", prefix1, width = prefix_width);
+                    let mut prefix1 = renderer.ordered_item_prefix(i.get());
+                    // Pad to the common marker width (in display columns)
+                    let pad = prefix_width.saturating_sub(UnicodeWidthStr::width(prefix1.as_str()));
+                    prefix1.push_str(&" ".repeat(pad));
 
                     renderer.append_subrender(
                         sub_builder,
@@ -2937,7 +2943,7 @@ fn calc_ol_prefix_size<D: TextDecorator>(start: i64, num_items: usize, decorator
     let max_number = start.saturating_add(num_items as i64).saturating_sub(1);
 
     // This assumes that the decorator gives the same width as default.
-    let prefix_width_min = decorator.ordered_item_prefix(min_number).len();
-    let prefix_width_max = decorator.ordered_item_prefix(max_number).len();
+    let prefix_width_min = UnicodeWidthStr::width(decorator.ordered_item_prefix(min_number).as_str());
+    let prefix_width_max = UnicodeWidthStr::width(decorator.ordered_item_prefix(max_number).as_str());
     max(prefix_width_min, prefix_width_max)
 }
